@@ -122,7 +122,8 @@ impl KRange {
             }
         };
 
-        let end = if inclusive { end + 1 } else { end };
+        // Saturate rather than overflow for an inclusive range that ends at i64::MAX
+        let end = if inclusive { end.saturating_add(1) } else { end };
         start..end.max(start)
     }
 
@@ -167,7 +168,8 @@ impl KRange {
     pub fn size(&self) -> Option<usize> {
         if self.is_bounded() {
             let range = self.as_bounded_range();
-            Some(((range.end).max(range.start) - range.start) as usize)
+            // abs_diff avoids an overflow for ranges that span more than i64::MAX
+            Some((range.end).max(range.start).abs_diff(range.start) as usize)
         } else {
             None
         }
